@@ -201,7 +201,7 @@ def driver():
         prepare(Ctx("C07", "quick", 1))
     k = ("d", os.getpid())
     if k not in _drv:
-        _drv[k] = cbuild.Driver(_drv["exe"], ["query"])
+        _drv[k] = cbuild.Driver(_drv["exe"], ["query"], max_line=4000)
     return _drv[k]
 
 
